@@ -95,4 +95,44 @@ example :
     (Ratio.pII p rows).stat = .unbounded := by
   decide +kernel
 
+
+/-! ### the dual phase-II ratio test (ratio.c:638-787, `Qsx.Ratio.dII`): the same rule on dual slacks -/
+
+open Qsx.Ratio in
+theorem ratio_dII_never_failed (leq : Rat → Rat → Bool) (inf pivtol dftol : Rat) (hp : 0 ≤ pivtol)
+    (lvUpper : Bool) (cols : List DCol) :
+    (dIIWith leq inf pivtol dftol lvUpper cols).stat ≠ .failed :=
+  dIIWith_never_failed leq inf pivtol dftol hp lvUpper cols
+
+open Qsx.Ratio in
+/-- RATIO_UNBOUNDED in the dual (the evidence for "primal infeasible"): every dual step up to `inf`
+keeps every non-basic column dual feasible -/
+theorem ratio_dII_unbounded_ray (inf dftol : Rat) (lvUpper : Bool) (cols : List DCol)
+    (hfeas : ∀ c ∈ cols, inBounds (dPar inf 0 dftol) dftol (toRow inf lvUpper c) (toRow inf lvUpper c).x)
+    (h : (dII inf 0 dftol lvUpper cols).stat = .unbounded) :
+    ∀ c ∈ cols, ∀ t, 0 ≤ t → t ≤ inf →
+      inBounds (dPar inf 0 dftol) dftol (toRow inf lvUpper c) (newx (dPar inf 0 dftol) (toRow inf lvUpper c) t) :=
+  dII_unbounded_sound inf dftol lvUpper cols hfeas h
+
+open Qsx.Ratio in
+/-- RATIO_BCHANGE in the dual at tolerance 0: dual feasibility is kept and the entering column's
+reduced cost becomes 0 -/
+theorem ratio_dII_step_feasible (inf : Rat) (lvUpper : Bool) (cols : List DCol)
+    (hfeas : ∀ c ∈ cols, inBounds (dPar inf 0 0) 0 (toRow inf lvUpper c) (toRow inf lvUpper c).x)
+    (h : (dII inf 0 0 lvUpper cols).stat = .bchange) :
+    ∃ t c, 0 ≤ t ∧ (dII inf 0 0 lvUpper cols).tz = t ∧ (dII inf 0 0 lvUpper cols).coeffch = false ∧
+      0 ≤ (dII inf 0 0 lvUpper cols).eindex ∧ cols[(dII inf 0 0 lvUpper cols).eindex.toNat]? = some c ∧
+      (dII inf 0 0 lvUpper cols).pivot = c.zA ∧ c.skip = false ∧ c.zA ≠ 0 ∧
+      (∀ c' ∈ cols, inBounds (dPar inf 0 0) 0 (toRow inf lvUpper c') (newSlack inf lvUpper c' t)) ∧
+      newSlack inf lvUpper c t = 0 :=
+  dII_bchange_sound inf lvUpper cols hfeas h
+
+/-- non-vacuity: two columns at lower with slacks 3 and 1, leaving variable at lower; column 1 blocks first -/
+example :
+    let cols : List Ratio.DCol := [{ zA := -2, dz := 3, cz := 0, vstat := 3, skip := false },
+                                   { zA := -1, dz := 1, cz := 0, vstat := 3, skip := false }]
+    (Ratio.dII 1000 0 0 false cols).stat = .bchange ∧ (Ratio.dII 1000 0 0 false cols).eindex = 1 ∧
+    (Ratio.dII 1000 0 0 false cols).tz = 1 := by
+  decide +kernel
+
 end Qsx.Props.C03
